@@ -570,6 +570,37 @@ static htp_cfg_t *build_cfg(const Plan &p) {
     if (c.has("nul_raw_term")) htp_config_set_nul_raw_terminates(cfg, HTP_DECODER_URLENCODED, (int) c.get("nul_raw_term", 0));
     if (c.has("path_url_invalid")) htp_config_set_url_encoding_invalid_handling(cfg, HTP_DECODER_URL_PATH, (enum htp_url_encoding_handling_t) c.get("path_url_invalid", 0));
 
+    // decoder swarm: every remaining decoder switch drawn from one integer (path context; urlencoded context on request)
+    if (c.has("dec_swarm")) {
+        Rng r((uint64_t) c.get("dec_swarm", 0) * 0x9E3779B97F4A7C15ULL + 17);
+        static unsigned char BESTFIT[] = {0x01, 0x00, 'A', 0xff, 0x0f, '/', 0x22, 0x15, '/', 0xff, 0x3c, '\\', 0xff, 0x21, 'a', 0x00, 0xe9, 'e', 0, 0, 0};
+        static const enum htp_unwanted_t UNW[] = {HTP_UNWANTED_IGNORE, HTP_UNWANTED_400, HTP_UNWANTED_404};
+        int nctx = c.get("dec_swarm_urlenc", 0) ? 2 : 1;
+        for (int i = 0; i < nctx; i++) {
+            enum htp_decoder_ctx_t ctx = i == 0 ? HTP_DECODER_URL_PATH : HTP_DECODER_URLENCODED;
+            if (r.coin()) htp_config_set_backslash_convert_slashes(cfg, ctx, (int) r.below(2));
+            if (r.coin()) htp_config_set_bestfit_map(cfg, ctx, BESTFIT);
+            if (r.coin()) htp_config_set_bestfit_replacement_byte(cfg, ctx, (int) r.below(256));
+            if (r.coin()) htp_config_set_control_chars_unwanted(cfg, ctx, UNW[r.below(3)]);
+            if (r.coin()) htp_config_set_convert_lowercase(cfg, ctx, (int) r.below(2));
+            if (r.coin()) htp_config_set_nul_encoded_terminates(cfg, ctx, (int) r.below(2));
+            if (r.coin()) htp_config_set_nul_encoded_unwanted(cfg, ctx, UNW[r.below(3)]);
+            if (r.coin()) htp_config_set_nul_raw_terminates(cfg, ctx, (int) r.below(2));
+            if (r.coin()) htp_config_set_nul_raw_unwanted(cfg, ctx, UNW[r.below(3)]);
+            if (r.coin()) htp_config_set_path_separators_compress(cfg, ctx, (int) r.below(2));
+            if (r.coin()) htp_config_set_path_separators_decode(cfg, ctx, (int) r.below(2));
+            if (r.coin()) htp_config_set_path_separators_encoded_unwanted(cfg, ctx, UNW[r.below(3)]);
+            if (r.coin()) htp_config_set_plusspace_decode(cfg, ctx, (int) r.below(2));
+            if (r.coin()) htp_config_set_u_encoding_decode(cfg, ctx, (int) r.below(2));
+            if (r.coin()) htp_config_set_u_encoding_unwanted(cfg, ctx, UNW[r.below(3)]);
+            if (r.coin()) htp_config_set_url_encoding_invalid_handling(cfg, ctx, (enum htp_url_encoding_handling_t) r.below(3));
+            if (r.coin()) htp_config_set_url_encoding_invalid_unwanted(cfg, ctx, UNW[r.below(3)]);
+            if (r.coin()) htp_config_set_utf8_convert_bestfit(cfg, ctx, (int) r.below(2));
+            if (r.coin()) htp_config_set_utf8_invalid_unwanted(cfg, ctx, UNW[r.below(3)]);
+        }
+        if (r.coin()) htp_config_set_requestline_leading_whitespace_unwanted(cfg, HTP_DECODER_DEFAULTS, UNW[r.below(3)]);
+    }
+
     // monitors: every hook, always
     htp_config_register_request_start(cfg, cb_request_start);
     htp_config_register_request_line(cfg, cb_request_line);
@@ -591,6 +622,10 @@ static htp_cfg_t *build_cfg(const Plan &p) {
     htp_config_register_response_complete(cfg, cb_response_complete);
     htp_config_register_transaction_complete(cfg, cb_transaction_complete);
     htp_config_register_log(cfg, log_cb);
+    if (c.get("cfg_copy", 0)) {   // what an IDS does per server: work on a deep copy, the template is destroyed
+        htp_cfg_t *copy = htp_config_copy(cfg);
+        if (copy) { htp_config_destroy(cfg); cfg = copy; }
+    }
     return cfg;
 }
 
